@@ -81,19 +81,31 @@ def _preprocessing(fn):
     writes_anywhere = [unparse(n) for n in ast.walk(fn)
                        if isinstance(n, (ast.Assign, ast.AugAssign, ast.AnnAssign))
                        and "FieldWrapper." in unparse(n.targets[0] if isinstance(n, ast.Assign) else n.target)]
+    # POSITION of the re-install relative to the readers: the conflict resolver / subgroup resolution (which read
+    # FieldWrapper.option_strings) and the add-argument loop
+    readers = [i for i, t in enumerate(texts) if "_conflict_resolver" in t or "_resolve_subgroups" in t]
+    loops = [i for i, st in enumerate(body) if isinstance(st, ast.For) and ".add_arguments(" in texts[i]]
+    if not readers or len(loops) != 1 or max(readers) > loops[0]:
+        raise Unrecognised("_preprocessing: conflict resolution / subgroup resolution / add-argument loop not found in this order")
+    first = True
     if all(p is None for p in pos):
         if writes_anywhere:
             raise Unrecognised(f"_preprocessing writes FieldWrapper attributes in an unknown way: {writes_anywhere[:3]}")
-        reasserts = False
-    elif all(p is not None and p < first_use for p in pos):
+        reasserts, first = False, False
+    elif all(p is not None for p in pos):
         if sorted(writes_anywhere) != sorted(want):
             raise Unrecognised(f"_preprocessing: extra writes to FieldWrapper: {writes_anywhere[:5]}")
         if has_guard and min(pos) < 1:
             raise Unrecognised("_preprocessing: re-assertion placed before the guard")
-        reasserts = True
+        if max(pos) < min(readers):
+            reasserts, first = True, True             # before everything that reads the settings
+        elif min(pos) > max(readers) and max(pos) < loops[0]:
+            reasserts, first = True, False            # only the add-argument loop sees the parser's own settings
+        else:
+            raise Unrecognised("_preprocessing: the re-install of the three settings sits between / after its readers")
     else:
-        raise Unrecognised("_preprocessing: the three settings are re-asserted only partly or too late")
-    return reasserts, cached, after_work
+        raise Unrecognised("_preprocessing: the three settings are re-asserted only partly")
+    return reasserts, first, cached, after_work
 
 
 def _config_arg(fn):
@@ -167,6 +179,27 @@ def _set_defaults(fn):
                for t in texts):
         raise Unrecognised("set_defaults: constructor_arguments accumulation")
     return True
+
+
+def _nested_mode_reads(set_defaults, add_arguments):
+    """Which nested_mode do set_defaults (re-rooting of a config file) and _add_arguments test: the parser's own
+    (self.nested_mode -> True) or the class-level one (FieldWrapper.nested_mode -> False)?"""
+    kinds = []
+    for fn, tail in ((set_defaults, " == NestedMode.WITHOUT_ROOT and len(self._wrappers) == 1"),
+                     (add_arguments, " == NestedMode.WITHOUT_ROOT and all((field.name in self._defaults for field in new_wrapper.fields))")):
+        tests = [unparse(n.test) for n in ast.walk(fn) if isinstance(n, ast.If) and "WITHOUT_ROOT" in unparse(n.test)]
+        if len(tests) != 1:
+            raise Unrecognised(f"{fn.name}: {len(tests)} tests of the nested mode")
+        t = tests[0]
+        if t == "self.nested_mode" + tail:
+            kinds.append(True)
+        elif t == "FieldWrapper.nested_mode" + tail:
+            kinds.append(False)
+        else:
+            raise Unrecognised(f"{fn.name}: nested-mode test `{t}`")
+    if kinds[0] != kinds[1]:
+        raise Unrecognised("set_defaults and _add_arguments read different nested modes")
+    return kinds[0]
 
 
 def _option_strings(fn):
@@ -258,10 +291,12 @@ def _parse_enum(fn):
 def emit(repo: str) -> str:
     pt = parse(repo, "simple_parsing/parsing.py")
     _constructor(find_def(pt, "__init__", cls="ArgumentParser"))
-    reasserts, cached, after_work = _preprocessing(find_def(pt, "_preprocessing", cls="ArgumentParser"))
+    reasserts, first, cached, after_work = _preprocessing(find_def(pt, "_preprocessing", cls="ArgumentParser"))
     every, refreshed = _config_arg(find_def(pt, "parse_known_args", cls="ArgumentParser"))
     _print_help(find_def(pt, "print_help", cls="ArgumentParser"))
     persist = _set_defaults(find_def(pt, "set_defaults", cls="ArgumentParser"))
+    own_mode = _nested_mode_reads(find_def(pt, "set_defaults", cls="ArgumentParser"),
+                                  find_def(pt, "_add_arguments", cls="ArgumentParser"))
     fw = parse(repo, "simple_parsing/wrappers/field_wrapper.py")
     _option_strings(find_def(fw, "option_strings", cls="FieldWrapper"))
     fp = parse(repo, "simple_parsing/wrappers/field_parsing.py")
@@ -271,6 +306,10 @@ def emit(repo: str) -> str:
         "From SPV Require Import Base.Str Model.History.\nOpen Scope string_scope.\n"
         "(* does _preprocessing re-assert the parser's own three settings on FieldWrapper before option strings are generated *)\n"
         f"Definition reasserts_gen : bool := {_b(reasserts)}.\n"
+        "(* ... and is that re-install placed before EVERYTHING that reads them (conflict resolver, subgroup resolution) *)\n"
+        f"Definition reassert_first_gen : bool := {_b(first)}.\n"
+        "(* do set_defaults / _add_arguments test the parser's own nested_mode (false: FieldWrapper.nested_mode) *)\n"
+        f"Definition defaults_own_mode_gen : bool := {_b(own_mode)}.\n"
         "(* is the help-only --config_path argument added unconditionally on every parse *)\n"
         f"Definition cfgarg_every_parse_gen : bool := {_b(every)}.\n"
         "(* is set-up cached by _preprocessing_done *)\n"
@@ -286,7 +325,7 @@ def emit(repo: str) -> str:
         "(* does parse_enum key the module-level registry _parsing_fns by the Enum class object (false: by its qualified name) *)\n"
         f"Definition reg_by_class_gen : bool := {_b(by_class)}.\n"
         "Definition facts_gen : facts :=\n"
-        "  mkfacts reasserts_gen cfgarg_every_parse_gen setup_cached_gen tuple_counter_persists_gen defaults_persist_gen\n"
+        "  mkfacts reasserts_gen reassert_first_gen defaults_own_mode_gen cfgarg_every_parse_gen setup_cached_gen tuple_counter_persists_gen defaults_persist_gen\n"
         "          done_after_work_gen cfgarg_refreshed_gen reg_by_class_gen.\n"
         "Definition step_gen := step facts_gen.\n"
         "Definition fresh_gen := fresh facts_gen.\n"
